@@ -14,6 +14,57 @@ def engines(M):
     return NE, CE
 
 
+OPT_INIT = ("positive_init_speed", "positive_init_density", "positive_init_queue")
+VIAS = ("net", "elements", "elements_links_first", "elements_shuffled")
+
+
+def step_elements(net, via="elements", init_conditions=None, engine=None, rng=None, only_init=None, **kw):
+    """What ``Network.step`` documents, written with the element-level public calls
+    (`el.init_vars`, `origin.step`, `link.step`) - the per-element simulation loop of a user who
+    does not go through ``Network.step``.  via: 'elements' (same order as Network.step),
+    'elements_links_first', 'elements_shuffled' (needs rng).  only_init: element objects to be
+    (re-)initialised - the others keep the variables they already hold."""
+    ic = init_conditions or {}
+    init = {o: bool(kw.pop(o, False)) for o in OPT_INIT}
+    pn_speed = bool(kw.pop("positive_next_speed", False))
+    pn_density = bool(kw.pop("positive_next_density", False))
+    pn_queue = bool(kw.pop("positive_next_queue", False))
+    els = list(net.elements)
+    if via == "elements_shuffled" and rng is not None:
+        rng.shuffle(els)
+    for el in els:
+        if only_init is not None and not any(el is x for x in only_init):
+            continue
+        el.init_vars(init_conditions=ic.get(el), engine=engine, **init)
+    todo = [("o", o) for o in net.origins] + [("l", l) for _, _, l in net.links]
+    if via == "elements_links_first":
+        todo = [t for t in todo if t[0] == "l"] + [t for t in todo if t[0] == "o"]
+    elif via == "elements_shuffled" and rng is not None:
+        rng.shuffle(todo)
+    for k, el in todo:
+        if k == "o":
+            el.step(net=net, engine=engine, positive_next_queue=pn_queue, **kw)
+        else:
+            el.step(net=net, engine=engine, positive_next_speed=pn_speed, positive_next_density=pn_density, **kw)
+
+
+def do_step(net, via="net", rng=None, **kw):
+    """One step of `net`, through ``Network.step`` or through the element-level calls; an installed
+    StepMonitor observes both the same way."""
+    if via == "net":
+        kw.pop("only_init", None)
+        return net.step(**kw)
+    mon = getattr(type(net).step, "_vf_monitor", None)
+    run = lambda: step_elements(net, via, rng=rng, **kw)  # noqa: E731
+    if mon is not None and mon.enabled:
+        return mon.around(net, (), kw, run)
+    return run()
+
+
+def pick_via(rng, p=0.25):
+    return rng.choice(VIAS[1:]) if rng.random() < p else "net"
+
+
 def step_pars(pars):
     """Model parameters as keyword arguments (delta/phi omitted when absent)."""
     return {k: v for k, v in pars.items() if v is not None}
